@@ -532,6 +532,7 @@ pub fn bfs(spec: &dyn Spec, threads: usize, seed: u64, wall_cap: Duration) -> (S
     let mut seen: HashSet<u64> = HashSet::new();
     let mut dispatch_logs: HashSet<u64> = HashSet::new();
 
+    let mut dump = std::env::var("VERIF_DUMP_KEYS").ok().and_then(|p| std::fs::OpenOptions::new().create(true).append(true).open(p).ok());
     let root = run(&cfg, &b, &[]);
     stats.executions += 1;
     seen.insert(root.key);
@@ -609,6 +610,10 @@ pub fn bfs(spec: &dyn Spec, threads: usize, seed: u64, wall_cap: Duration) -> (S
                     }
                 }
                 if seen.insert(o.snap.key) {
+                    if let Some(f) = dump.as_mut() {
+                        use std::io::Write;
+                        let _ = writeln!(f, "{} <= {}", o.snap.key_text, history_json(&o.history));
+                    }
                     stats.states += 1;
                     stats.max_depth = stats.max_depth.max(o.history.len());
                     if o.snap.quiescent {
